@@ -7,6 +7,9 @@ from contextlib import contextmanager
 import numpy as np
 
 
+PAUSED = [False]      # set while a bystander (sim/bystander.py) moves: its draws / splits are not part of the run under test
+
+
 class _RandomRecorder:
     """Delegates to numpy.random (the real, global state) and logs every call with its result."""
 
@@ -20,7 +23,8 @@ class _RandomRecorder:
 
         def wrapped(*a, **k):
             out = f(*a, **k)
-            self._log.append((name, a, k, threading.get_ident(), out))
+            if not PAUSED[0]:
+                self._log.append((name, a, k, threading.get_ident(), out))
             return out
 
         return wrapped
